@@ -590,15 +590,31 @@ impl World {
     pub fn start_node_as(&mut self, idx: usize, cfg: NodeCfg) -> anyhow::Result<Node> {
         let (svc, live) = HarnessService::new(idx, self.log.clone());
         let bind: SocketAddr = cfg.bind.unwrap_or_else(|| "127.0.0.1:0".parse().unwrap());
-        let mut b = Network::bind(bind)
-            .config(cfg.config.clone())
-            .server_name(cfg.name.clone())
-            .private_key(cfg.key);
-        if let Some(alt) = &cfg.alt_name {
-            b = b.alternate_server_name(alt.clone());
+        // the builder's setters are applied in an order derived from the node's key: what a
+        // network does must not depend on the order in which it was configured
+        let mut b = Network::bind(bind);
+        let mut setters: Vec<u8> = vec![0, 1, 2];
+        if cfg.alt_name.is_some() {
+            setters.push(3);
         }
-        if let Some(counter) = &cfg.outbound_layer {
-            b = b.outbound_request_layer(CountLayer(counter.clone()));
+        if cfg.outbound_layer.is_some() {
+            setters.push(4);
+        }
+        let mut x = u64::from_le_bytes(cfg.key[..8].try_into().unwrap()) | 1;
+        for i in (1..setters.len()).rev() {
+            x ^= x << 13;
+            x ^= x >> 7;
+            x ^= x << 17;
+            setters.swap(i, (x % (i as u64 + 1)) as usize);
+        }
+        for s in setters {
+            b = match s {
+                0 => b.config(cfg.config.clone()),
+                1 => b.server_name(cfg.name.clone()),
+                2 => b.private_key(cfg.key),
+                3 => b.alternate_server_name(cfg.alt_name.clone().unwrap()),
+                _ => b.outbound_request_layer(CountLayer(cfg.outbound_layer.clone().unwrap())),
+            };
         }
         let net = match cfg.concurrency_limit {
             Some(k) => b.start(tower::limit::ConcurrencyLimit::new(svc, k))?,
